@@ -72,6 +72,8 @@ pub enum OptVal {
     Bool(bool),
     Secs32(u32),
     I32(i32),
+    /// classless static routes: (network, prefix length, next hop)
+    Routes(Vec<(Ipv4Addr, u8, Ipv4Addr)>),
 }
 
 impl OptVal {
@@ -86,6 +88,16 @@ impl OptVal {
             OptVal::Bool(b) => vec![*b as u8],
             OptVal::Secs32(v) => v.to_be_bytes().to_vec(),
             OptVal::I32(v) => v.to_be_bytes().to_vec(),
+            // RFC 3442: length, significant octets, router
+            OptVal::Routes(l) => l
+                .iter()
+                .flat_map(|(n, len, gw)| {
+                    let mut v = vec![*len];
+                    v.extend_from_slice(&n.octets()[..(*len as usize + 7) / 8]);
+                    v.extend_from_slice(&gw.octets());
+                    v
+                })
+                .collect(),
         }
     }
     fn yaml(&self, style: u8) -> Yaml {
@@ -102,12 +114,23 @@ impl OptVal {
                 _ => ystr(&format!("{}m{}s", v / 60, v % 60)),
             },
             OptVal::I32(v) => Yaml::Integer(*v as i64),
+            OptVal::Routes(l) => ylist(
+                l.iter()
+                    .map(|(n, len, gw)| {
+                        if style & 8 == 0 {
+                            ymap(vec![("prefix", ystr(&format!("{}/{}", n, len))), ("next-hop", ystr(&gw.to_string()))])
+                        } else {
+                            ymap(vec![("next-hop", ystr(&gw.to_string())), ("prefix", ystr(&format!("{}/{}", n, len)))])
+                        }
+                    })
+                    .collect(),
+            ),
         }
     }
 }
 
 /// (name in erbium.conf(5), option code, kind) for options with an unambiguous RFC 2132 encoding.
-pub const APPLY_OPTS: [(&str, u8, u8); 22] = [
+pub const APPLY_OPTS: [(&str, u8, u8); 25] = [
     ("netmask", 1, 0),
     ("time-offset", 2, 7),
     ("routers", 3, 1),
@@ -132,6 +155,14 @@ pub const APPLY_OPTS: [(&str, u8, u8); 22] = [
     // them out of a reply or point them elsewhere (C10: lease time, C13: server identifier)
     ("lease-time", 51, 6),
     ("server-id", 54, 0),
+    // the timers that go with the lease time (C10: whatever a policy says about T1 and T2, the
+    // lease time advertised is the one recorded).  Their encoding is not judged by C11.
+    ("renewal-time", 58, 8),
+    ("rebind-time", 59, 8),
+    // classless static routes (RFC 3442).  Which options go out beside it is judged; its own
+    // octets are not (the server writes all four octets of every prefix, and a unit test of the
+    // project pins that).
+    ("routes", 121, 9),
 ];
 
 pub const MATCH_OPTS: [(&str, u8); 3] = [("host-name", 12), ("class-id", 60), ("user-class", 77)];
@@ -256,6 +287,27 @@ fn optval_strategy(kind: u8) -> BoxedStrategy<OptVal> {
         ]
         .prop_map(OptVal::Secs32)
         .boxed(),
+        // the loader keeps these two within 16 bits (larger values are rejected with an error)
+        8 => prop_oneof![
+            Just(0u32), Just(1), Just(60), Just(150), Just(299), Just(300), Just(301), Just(1800), Just(3600), Just(43200), Just(65535), 0u32..65536,
+        ]
+        .prop_map(OptVal::Secs32)
+        .boxed(),
+        9 => proptest::collection::vec(
+            (
+                prop_oneof![
+                    3 => Just((Ipv4Addr::new(0, 0, 0, 0), 0u8)),
+                    1 => Just((Ipv4Addr::new(10, 0, 0, 0), 8u8)),
+                    1 => Just((Ipv4Addr::new(192, 0, 2, 0), 24u8)),
+                    1 => Just((Ipv4Addr::new(198, 51, 100, 64), 26u8)),
+                    1 => Just((Ipv4Addr::new(203, 0, 113, 7), 32u8)),
+                ],
+                uaddr(),
+            ),
+            1..=3,
+        )
+        .prop_map(|l| OptVal::Routes(l.into_iter().map(|((n, len), gw)| (n, len, gw)).collect()))
+        .boxed(),
         _ => prop_oneof![Just(i32::MIN), Just(-1i32), Just(i32::MAX), any::<i32>()]
             .prop_map(OptVal::I32)
             .boxed(),
@@ -263,7 +315,7 @@ fn optval_strategy(kind: u8) -> BoxedStrategy<OptVal> {
 }
 
 fn apply_opt_strategy() -> impl Strategy<Value = (u8, Option<OptVal>)> {
-    prop_oneof![6 => 0usize..7, 4 => 0usize..APPLY_OPTS.len(), 1 => 20usize..22].prop_flat_map(|i| {
+    prop_oneof![6 => 0usize..7, 4 => 0usize..APPLY_OPTS.len(), 1 => 20usize..22, 1 => 22usize..24, 1 => Just(24usize)].prop_flat_map(|i| {
         let kind = APPLY_OPTS[i].2;
         (Just(i as u8), proptest::option::weighted(0.8, optval_strategy(kind)))
     })
@@ -1081,7 +1133,7 @@ impl Prop for C11Options {
         }
         out.nontrivial = siblings_both || overridden || null_used || withheld;
         // ---- comparison
-        let protocol = [wire::OPT_MSG_TYPE, wire::OPT_SERVER_ID, wire::OPT_LEASE_TIME];
+        let protocol = [wire::OPT_MSG_TYPE, wire::OPT_SERVER_ID, wire::OPT_LEASE_TIME, 58, 59, 121];
         let mut codes: BTreeSet<u8> = got.keys().copied().collect();
         codes.extend(model.keys().copied());
         for code in codes {
@@ -1175,7 +1227,10 @@ impl Prop for ReplyInvariants {
         if touches(54) {
             out.class("policy-names-server-id-and-client-asks-for-it");
         }
-        out.nontrivial = if self.which == "C10" { touches(51) } else { touches(54) };
+        if touches(58) || touches(59) {
+            out.class("policy-names-renewal-or-rebind-time-and-client-asks-for-it");
+        }
+        out.nontrivial = if self.which == "C10" { touches(51) || touches(58) || touches(59) } else { touches(54) };
         let mut pool = dhcp::pool::Pool::new_in_memory().expect("pool");
         let mut ids: std::collections::HashSet<Ipv4Addr> = Default::default();
         let mut offered: Option<Ipv4Addr> = None;
